@@ -7,7 +7,8 @@ from vlib import coqrun
 from vlib.common import COQ
 
 STATIC = ["C14S/PyList.v", "C14S/StackSpec.v", "C14S/StackSpecProofs.v", "C14S/Spill.v", "C14S/SpillProofs.v", "C14S/SpillInv.v",
-          "C14S/ReorderProofs.v", "C14S/ReorderFull.v", "C14S/CallProofs.v", "C14S/FrameProofs.v", "C14S/Script.v"]
+          "C14S/ReorderProofs.v", "C14S/ReorderFull.v", "C14S/PopProofs.v", "C14S/CleanProofs.v", "C14S/EmitProofs.v",
+          "C14S/JoinProofs.v", "C14S/CallProofs.v", "C14S/FrameProofs.v", "C14S/Script.v"]
 PER_RUN = ["C14S/GenStackModel.v", "C14S/TieStackModel.v", "C14S/PropsStack.v"]
 IMPORTS = "From Verif Require Import Base.PyInt C14S.PyList C14S.StackSpec C14S.Spill C14S.Script.\n"
 NEXT0 = 4096
@@ -815,6 +816,8 @@ def corpus_checks(ctx, tier):
                             break
                 except Exception as e:  # noqa
                     fails.append(("correspondence-broken", f"cannot execute corpus contract under {cfg.name}: {e}", {"config": cfg.name}))
+    import time as _t
+    stats.setdefault("seconds", {})["deep_stack"] = round(_t.time() - ctx.t0, 1)
     # other program shapes (external calls, ABI decoding, storage): instruction-level validation + join agreement only
     try:
         from vlib import c12_lib
@@ -822,7 +825,7 @@ def corpus_checks(ctx, tier):
     except Exception:  # noqa
         extra = []
     for name, src in extra:
-        for cfg in cfgs[:2] if tier == "quick" else cfgs[:6]:
+        for cfg in [cfgs[ctx.rng('c14s-c12cfg').randrange(len(cfgs))]] if tier == "quick" else cfgs[:6]:
             try:
                 with C.EdgeRecorder() as rec, TV.InstRecorder() as tv, FR.FrameRecorder() as fr:
                     cd = CompilerData(src, settings=cfg.settings())
@@ -844,6 +847,7 @@ def corpus_checks(ctx, tier):
             if bad:
                 fails.append(("failing-input", f"stack layouts of the predecessors of a join block disagree ({name}, {cfg.name}): {bad[0]['what']}",
                               {"config": cfg.name, "source": src, "disagreements": bad[:3]}))
+    stats["seconds"]["c12_caller"] = round(_t.time() - ctx.t0, 1)
     # fixed programs with historically problematic shapes: all checks + results equal the legacy pipeline
     for entry in C.FIXED:
         src, calls = entry[:2]
@@ -884,12 +888,11 @@ def corpus_checks(ctx, tier):
                                   {"config": cfg.name, "source": src, "call": f"{sig} {args}", "legacy": [r0.ok, r0.out.hex()], "venom": [r.ok, r.out.hex()],
                                    "_key": fkey}))
                     break
-    import time
-    t0 = time.time()
+    stats["seconds"]["fixed"] = round(_t.time() - ctx.t0, 1)
     call_family_checks(ctx, tier, stats, fails)
-    t1 = time.time()
+    stats["seconds"]["call_family"] = round(_t.time() - ctx.t0, 1)
     pass_corpus_checks(ctx, tier, stats, fails)
-    stats["seconds"] = {"call_family": round(t1 - t0, 1), "pass_corpus": round(time.time() - t1, 1)}
+    stats["seconds"]["pass_corpus"] = round(_t.time() - ctx.t0, 1)
     return stats, fails
 
 
@@ -1035,7 +1038,7 @@ def _part_stack(ctx) -> int:
 
     total = 0
     pending = None
-    files = list(STATIC)
+    files = []
     gen_ok = True
     try:
         (COQ / "C14S" / "GenStackModel.v").write_text(T.translate())
@@ -1043,10 +1046,18 @@ def _part_stack(ctx) -> int:
     except Unsupported as e:
         gen_ok = False
         pending = ("translator-rejected", f"stack_model.py left the translatable fragment: {e}", {"error": str(e)})
-    b = ctx.coq_build(files)
+    # hand models + their proofs depend on no generated file: content-keyed reuse of the .vo (recompiled whenever the
+    # source, an earlier file of the list, a Base file or the Coq version changes); the generated model, its tie and the
+    # property theorems are recompiled on every run
+    b = ctx.coq_build_cached(STATIC)
+    if b["ok"] and files:
+        b = ctx.coq_build(files)
     if not b["ok"] and pending is None:
         pending = ("theorem-broken", f"{b.get('failed_lemma')} in {b['file']}",
                    {"theorem": b.get("failed_lemma"), "file": b["file"], "coq_output": b["out"][-1500:]})
+    import time as _t
+    _t0 = _t.time()
+    ctx.log(f'coq build done at {_t.time() - ctx.t0:.0f}s')
     found = False
     quick = ctx.tier == "quick"
     # (1) translation validation
@@ -1057,6 +1068,7 @@ def _part_stack(ctx) -> int:
         for x in bad[:3]:
             ctx.violation("correspondence-broken", "translated StackModel method disagrees with CPython", x)
     # (2) spiller / reorder exact-output differential + (3) EVM execution of the real emitted assembly
+    ctx.log(f'stackmodel diff at {_t.time() - ctx.t0:.0f}s')
     scen, stats, bad = spill_differential(ctx, 320 if quick else 3000)
     total += stats["cmds"]
     ctx.corr["spill_scenarios"] = stats
@@ -1066,6 +1078,7 @@ def _part_stack(ctx) -> int:
         found = True
         ctx.violation("failing-input", "StackSpiller / _stack_reorder does not perform the requested stack operation: "
                       + str(x.get("problem", "wrong stack effect")), x, key="c14s:effect:" + str(x.get("command"))[:80])
+    ctx.log(f'spill diff at {_t.time() - ctx.t0:.0f}s')
     n_evm, bad_evm = evm_execution(ctx, scen)
     total += n_evm
     ctx.corr["evm_executions"] = n_evm
@@ -1077,7 +1090,9 @@ def _part_stack(ctx) -> int:
         for x in bad[:3]:
             ctx.violation("correspondence-broken", "Spill.v model disagrees with StackSpiller/_stack_reorder (exact output)", x)
     # (4) corpus
+    ctx.log(f'evm exec at {_t.time() - ctx.t0:.0f}s')
     cstats, fails = corpus_checks(ctx, ctx.tier)
+    ctx.log(f'corpus at {_t.time() - ctx.t0:.0f}s')
     total += cstats["compiles"] + cstats["calls"]
     ctx.corr["corpus"] = cstats
     for kind, name, detail in fails[:4]:
